@@ -2,6 +2,7 @@ from __future__ import annotations
 
 import errno
 import platform
+import posixpath
 import shutil
 import stat
 import typing
@@ -14,6 +15,7 @@ from ._errors import (
     DirectoryExpected,
     DirectoryNotEmpty,
     FileExpected,
+    IllegalBackReference,
     IllegalDestination,
     ResourceError,
     ResourceNotFound,
@@ -50,7 +52,11 @@ class OSFS(FS):
 
     def _abs(self, rel_path: str) -> Path:
         self.check()
-        return (self._root / rel_path.strip("/")).resolve()
+        rel_path = rel_path.strip("/")
+        if posixpath.normpath(rel_path).split("/")[0] == "..":
+            # e.g. '../x' read from a contents.plist: never leave the root directory
+            raise IllegalBackReference(f"path {rel_path!r} escapes the filesystem root")
+        return (self._root / rel_path).resolve()
 
     def open(self, path: str, mode: str = "rb", **kwargs) -> IO[Any]:
         try:
